@@ -1,7 +1,7 @@
 (* C06 - the hand model of Model/C06.v IS the interpretation (Model/C06_Skel.v) of the control
    skeleton that gotrans regenerates from src/core/cycle_detector.go (Gen/CycleVisit.v).
    Any change of the source that alters the regenerated skeleton breaks one of the *_shape lemmas. *)
-From PlzV Require Import Base.Harness Model.C06 Gen.CycleVisit Model.C06_Skel Proof.C06.
+From PlzV Require Import Base.Harness Model.C06 Gen.CycleVisit Model.C06_Skel Proof.C06 Proof.C06_Seq.
 From Coq Require Import Permutation.
 
 (* What the proofs below are about: the skeleton as regenerated from the unchanged source. *)
@@ -91,4 +91,50 @@ Proof.
   destruct detect_correct as [Hs Hc]. split; [exact src_detect_eq |]. split.
   - intros g order c. rewrite src_detect_eq. apply Hs.
   - intros g order Hwf Hperm. rewrite src_detect_eq. exact (Hc g order Hwf Hperm).
+Qed.
+
+(* ------------------------------------------------------------------------------------------- *)
+(* One detector kept between runs (Proof/C06_Seq.v), for the regenerated Check                   *)
+
+(* type cycleDetector as regenerated: a new field (state kept between runs) fails closed in gotrans
+   and would break this lemma *)
+Lemma detector_fields_shape : detector_fields = [DGraph; DStopped].
+Proof. reflexivity. Qed.
+
+Lemma stop_shape : stop_sets_stopped = true.
+Proof. reflexivity. Qed.
+
+(* the stopped flag is all that one detector carries from one Check to the next *)
+Lemma src_persistent_stopped_only : src_persistent = [DStopped].
+Proof. unfold src_persistent. rewrite detector_fields_shape. reflexivity. Qed.
+
+Lemma src_session_eq es w : src_session w es = run_session detect w es.
+Proof. apply run_session_ext. exact src_detect_eq. Qed.
+
+Lemma src_check_world_eq w order : check_world src_detect w order = check_world detect w order.
+Proof. unfold check_world. rewrite src_detect_eq. reflexivity. Qed.
+
+(* The session part of the statement of Props/C06.v, assembled. *)
+Theorem src_session_correct :
+  src_persistent = [DStopped]
+  /\ (forall w pre post,
+        src_session w (pre ++ post) = src_session w pre ++ src_session w (erase_checks pre ++ post))
+  /\ (forall w pre order post,
+        wf (resolved w) -> valid_events w pre ->
+        Permutation order (nodes (resolved (final_world w pre))) ->
+        let wk := final_world w pre in
+        let o := check_world src_detect wk order in
+        nth_error (src_session w (pre ++ ECheck order :: post)) (checks pre) = Some (Ran wk order o)
+        /\ final_world w (erase_checks pre) = wk
+        /\ wf (resolved wk)
+        /\ (stopped wk = false -> correct_for (resolved wk) o)
+        /\ (stopped wk = true -> o = Clean)).
+Proof.
+  split; [exact src_persistent_stopped_only |]. split.
+  - intros w pre post. unfold src_session. apply session_stateless.
+  - intros w pre order post Hwf Hv Hperm. cbn zeta.
+    destruct (session_check_correct w pre order post Hwf Hv Hperm) as (Hn & He & Hc & Hs).
+    rewrite src_session_eq, src_check_world_eq.
+    split; [exact Hn |]. split; [exact He |]. split; [apply final_world_wf; assumption |].
+    split; [exact Hc | exact Hs].
 Qed.
